@@ -1119,7 +1119,7 @@ func runStorm(out *vio.Out, le *logrus.Entry) {
 		}
 		// settle: the registry must name exactly one open link for this address and X's second link must still be open
 		okRound := false
-		for dl := time.Now().Add(3 * time.Second); time.Now().Before(dl); {
+		for dl := time.Now().Add(15 * time.Second); time.Now().Before(dl); {
 			cnt, open := 0, 0
 			for _, l := range ctrl.GetPeerLinks(xid) {
 				if ra, ok := l.(interface{ RemoteAddr() net.Addr }); ok && ra.RemoteAddr().String() == addr {
